@@ -621,6 +621,16 @@ func genC19(r *world.Rng, w *world.World, big bool) {
 				n = r.Range(12, 16)
 				cl = randKSAT(r, n, int(float64(n)*(3.0+1.2*r.Float())), 3, 3)
 			}
+			if (f == "" || f == "-verbose" || f == "-cp") && r.Bool(0.04) {
+				// a model line of 4-16 KiB (beyond the usual buffer sizes of buffered writers), from a sparse,
+				// easily satisfied formula over many variables
+				n = r.Pick(700, 1000, 1500, 2500)
+				cl = nil
+				for i := 0; i < n/5; i++ {
+					cl = append(cl, distinctLits(r, n, r.Pick(2, 3)))
+				}
+				cl = append(cl, []int{n * r.Pick(1, -1), r.Range(1, n-1)})
+			}
 			if f == "-count" && len(cl) < n && n > 7 {
 				n = 7
 				var keep [][]int
